@@ -8,7 +8,7 @@ from typing import Any
 
 from .. import infra
 from ..grammar import gen_types, well_formed
-from ..refmodel.deser import Ctx
+from ..refmodel.deser import UNSPEC, Ctx, conform
 from ..tast import Obj, short, walk
 from . import deser_common as dc
 from .c04 import build_value, values_of
@@ -98,6 +98,14 @@ def run_type(i, label, spec, tier, st):
                 except Exception:
                     st.count("serialize_exception(C04 reports it)")
                     continue
+                if "rec_cons" in label:
+                    # maxProperties on the back-reference bears on the *data*: a value whose image has more
+                    # properties than allowed (the defaulted `next: None` is written out unless excluded)
+                    # is not a well-typed value of the constrained position (same as C05, DESIGN 10.2 item 6)
+                    mr = conform(spec, out, case.ctx(ap, False, al))
+                    if mr is not UNSPEC and not mr.ok and any(m and "Properties)" in m for _, m in mr.e.flat()):
+                        st.count("value_violates_object_constraint")
+                        continue
                 keys = tuple(sorted(out)) if isinstance(out, dict) else type(out).__name__
                 st.case(dc.shape_of(label), (ed, en, al, ap), vi, keys)
                 if not validator.is_valid(out):
